@@ -35,6 +35,8 @@ type ctxConn struct {
 	deadline time.Time
 	events   []string
 	closed   bool
+	onDrain  func() // called (once, inside Read) when the supplied bytes have all been handed out
+	blockW   bool   // Write blocks until a deadline passes or the conn is closed (like net.Pipe with a stalled peer)
 }
 
 func newCtxConn() *ctxConn {
@@ -81,9 +83,31 @@ func (c *ctxConn) Read(b []byte) (int, error) {
 	}
 	n := copy(b, c.data)
 	c.data = c.data[n:]
+	if len(c.data) == 0 && c.onDrain != nil {
+		f := c.onDrain
+		c.onDrain = nil
+		f()
+	}
 	return n, nil
 }
-func (c *ctxConn) Write(b []byte) (int, error) { return len(b), nil }
+func (c *ctxConn) Write(b []byte) (int, error) {
+	c.mu.Lock()
+	defer c.mu.Unlock()
+	for {
+		if c.closed {
+			return 0, net.ErrClosed
+		}
+		if !c.deadline.IsZero() && !time.Now().Before(c.deadline) {
+			return 0, os.ErrDeadlineExceeded
+		}
+		if !c.blockW {
+			return len(b), nil
+		}
+		t := time.AfterFunc(200*time.Microsecond, c.cond.Broadcast)
+		c.cond.Wait()
+		t.Stop()
+	}
+}
 func (c *ctxConn) Close() error {
 	c.mu.Lock()
 	c.closed = true
@@ -114,17 +138,29 @@ func genC10(env *core.Env, emit func(core.Case)) {
 	h.Exts = []gen.Ext{gen.SNI("plain.example"), gen.Versions(0x0304)}
 	hello := h.Record(0x0301)
 	reps := env.Pick(120, 400)
-	orderings := []string{"prebuffered-cancel-after-return", "late-hello-cancel-after-return", "cancel-before-hello", "cancel-concurrent-with-hello", "cancel-after-return-then-io", "never-cancelled"}
+	orderings := []string{"prebuffered-cancel-after-return", "late-hello-cancel-after-return", "cancel-before-hello", "cancel-concurrent-with-hello", "cancel-after-return-then-io", "never-cancelled",
+		"cancel-when-hello-fully-read", "cancel-before-hello-peer-not-reading", "cancel-mid-hello-peer-not-reading"}
 	defer runtime.GOMAXPROCS(runtime.GOMAXPROCS(0))
 	idx := 0
+	stuckCount := 0
 	seen := map[string]bool{}
 	for _, procs := range []int{1, 2, 4, 16} {
 		runtime.GOMAXPROCS(procs)
 		for _, ord := range orderings {
+			if f := os.Getenv("C10_ORD"); f != "" && f != ord {
+				continue
+			}
 			for rep := 0; rep < reps; rep++ {
 				idx++
 				c := newCtxConn()
 				ctx, cancel := context.WithCancel(context.Background())
+				withDeadline := rep%2 == 1
+				if withDeadline {
+					// a context that also carries a (far) deadline: the idiomatic WithTimeout caller
+					var cancel2 context.CancelFunc
+					ctx, cancel2 = context.WithDeadline(ctx, time.Now().Add(time.Hour))
+					defer cancel2()
+				}
 				var conn *ech.Conn
 				var err error
 				t0 := time.Now()
@@ -138,15 +174,50 @@ func genC10(env *core.Env, emit func(core.Case)) {
 				case "cancel-concurrent-with-hello":
 					go func() { time.Sleep(200 * time.Microsecond); c.Mark("cancel"); cancel() }()
 					go func() { time.Sleep(200 * time.Microsecond); c.Supply(hello) }()
+				case "cancel-when-hello-fully-read":
+					// the context ends at the very moment the last byte of the hello is handed to NewConn:
+					// NewConn is still running, the watcher fires while the hello is being processed
+					c.onDrain = func() { c.event("cancel"); cancel() }
+					c.Supply(hello)
+				case "cancel-before-hello-peer-not-reading":
+					c.blockW = true
+					go func() { time.Sleep(time.Duration(rep%5) * 100 * time.Microsecond); c.Mark("cancel"); cancel() }()
+				case "cancel-mid-hello-peer-not-reading":
+					c.blockW = true
+					c.mu.Lock()
+					c.data = append(c.data, hello[:3+rep%40]...)
+					c.cond.Broadcast()
+					c.mu.Unlock()
+					go func() { time.Sleep(time.Duration(1+rep%5) * 100 * time.Microsecond); c.Mark("cancel"); cancel() }()
 				}
-				conn, err = ech.NewConn(ctx, c, ech.WithKeys(nil))
+				stuck := false
+				if c.blockW && stuckCount >= 3 {
+					// three runs have already shown NewConn blocking for good: enough evidence, keep the run short
+					cancel()
+					continue
+				}
+				if c.blockW {
+					// NewConn must come back although the peer never reads what is written to it
+					done := make(chan struct{})
+					go func() { conn, err = ech.NewConn(ctx, c, ech.WithKeys(nil)); close(done) }()
+					select {
+					case <-done:
+					case <-time.After(2 * time.Second):
+						stuck = true
+						stuckCount++
+						c.Close()
+						<-done
+					}
+				} else {
+					conn, err = ech.NewConn(ctx, c, ech.WithKeys(nil))
+				}
 				elapsed := time.Since(t0)
 				if err == nil {
 					c.Mark("ret-ok")
 				} else {
 					c.Mark("ret-err")
 				}
-				if ord != "never-cancelled" && ord != "cancel-before-hello" && ord != "cancel-concurrent-with-hello" {
+				if ord != "never-cancelled" && ord != "cancel-before-hello" && ord != "cancel-concurrent-with-hello" && ord != "cancel-when-hello-fully-read" && !c.blockW {
 					c.Mark("cancel")
 					cancel()
 				}
@@ -184,12 +255,19 @@ func genC10(env *core.Env, emit func(core.Case)) {
 				if w == "" && ioErr != "" {
 					w = ioErr
 				}
-				if w == "" && ord == "cancel-before-hello" && (err == nil || elapsed > 2*time.Second) {
+				if w == "" && stuck {
+					w = "NewConn was still blocked 2 s after its context had ended (writing the alert to a peer that does not read)"
+				}
+				if w == "" && (ord == "cancel-before-hello" || c.blockW) && (err == nil || elapsed > 2*time.Second) {
 					w = fmt.Sprintf("context cancelled while NewConn was blocked: err=%v after %v", err, elapsed)
 				}
 				trace := strings.Join(events, ",")
 				ops := []core.Op{{Line: "ctx-trace " + trace, Kind: 'M', Want: "accept", Note: "observed event trace is a behaviour of the transition system"},
 					{Kind: 'X', Note: "the NewConn context has no effect after a successful return; prompt failure when it ends while blocked", Want: w}}
+				ord := ord
+				if withDeadline {
+					ord += "+deadline-ctx"
+				}
 				sig := fmt.Sprintf("%s/p%d/%s", ord, procs, trace)
 				cs := core.Case{Name: fmt.Sprintf("ctx/%d", idx), Stream: ord, Ops: ops, Key: ord, Sig: sig}
 				if !seen[sig] {
